@@ -7,6 +7,8 @@ import KinModel.Router
 import KinModel.RouterSpec
 import KinModel.Lemmas.C09Legacy
 import KinModel.Lemmas.C09LegacyComplete
+import KinModel.Lemmas.C09LegacyLiteral
+import KinModel.Lemmas.C09Server
 import KinModel.Lemmas.C09Gorilla
 import KinModel.Lemmas.C09Spec
 import KinModel.Lemmas.C09Witness
@@ -103,6 +105,67 @@ theorem legacy_route_complete_partial (setSrv : Bool) (d : Doc) (ks : List Key) 
   cases hmm : legacyMatchOf ks r.method rem with
   | none => simp [hmm] at hm
   | some kv => exact ⟨_, _, _, _, rfl⟩
+
+/-- literal_wins (legacy trie, any insertion order): when the looked-up string "METHOD remainingPath" is, up to trailing
+    slashes, a stored key without variables, the trie returns a key stored at that key's node (the key itself unless
+    another key collides with it, F-C09-7) and binds no variable — a templated sibling (`/a/{x}` next to `/a/b`) never
+    wins, whatever the suffix lists hold, because constants are tried before variables, longer constants first -/
+theorem legacy_literal_wins (ks : List Key) (k0 : Key) (hk : k0 ∈ ks) (hlit : '{' ∉ k0.str) (m rem : Str)
+    (hreq : stripSlashes (m ++ ' ' :: rem) = stripSlashes k0.str) :
+    ∃ k', legacyMatchOf ks m rem = some (k', []) ∧ k' ∈ ks ∧ k'.sufs = k0.sufs := by
+  obtain ⟨k2, h2⟩ := (build_has_path ks emptyNode).2 k0 hk
+  obtain ⟨k', h3, h4⟩ := lit_match k0.sufs (legacyRootOf ks) k2 (stripSlashes k0.str) [] (legacyRoot_good ks) h2 (key_lit k0 hlit)
+  refine ⟨k', by unfold legacyMatchOf; rw [hreq]; exact h3, ?_⟩
+  rcases build_paths ks emptyNode (k0.sufs, k') h4 with h0 | ⟨h5, h6⟩
+  · simp [paths_empty] at h0
+  · exact ⟨h5, h6.symm⟩
+
+/-- … and FindRoute then returns that key's route (no path parameter from the template) -/
+theorem legacy_literal_route (setSrv : Bool) (d : Doc) (ks : List Key) (r : Req) (hb : legacyBuildOK d = true)
+    (si : Option Nat) (sp : List (Str × Str)) (rem : Str) (hs : legacyServer d r = some (si, sp, rem))
+    (k0 : Key) (hk : k0 ∈ ks) (hlit : '{' ∉ k0.str)
+    (hreq : stripSlashes (r.method ++ ' ' :: rem) = stripSlashes k0.str) :
+    ∃ k' sv, k' ∈ ks ∧ k'.sufs = k0.sufs ∧
+      legacyFindOrd setSrv d ks r = .route k'.template k'.method (mapSetAll (mapSetAll [] sp) (((Tok.names k'.toks).map trimStar).zip [])) sv := by
+  obtain ⟨k', h1, h2, h3⟩ := legacy_literal_wins ks k0 hk hlit r.method rem hreq
+  refine ⟨k', (match si with | some i => if setSrv then SrvRef.doc i else SrvRef.none | none => SrvRef.none), h2, h3, ?_⟩
+  unfold legacyFindOrd
+  simp only [hb, Bool.not_true, Bool.false_eq_true, if_false, hs, h1]
+  cases si <;> rfl
+
+/-- the server part of the legacy FindRoute: the matched server is the first declared document-level server whose pattern
+    matches the request URL; its URL with the extracted (slash-free) values substituted, a final "/" ignored, is a prefix of
+    the request URL and the remaining path is what follows (an empty remainder reads as "/") -/
+theorem legacy_server_sound (d : Doc) (r : Req) (i : Nat) (sp : List (Str × Str)) (rem : Str)
+    (h : legacyServer d r = some (some i, sp, rem)) :
+    ∃ s, d.servers[i]? = some s ∧
+      (∀ j s', j < i → d.servers[j]? = some s' → matchRawURL (s'.url.length + 1) s'.url (rawURL r) [] = none) ∧
+      ∃ vals p rem', PatSpell s.url vals p ∧ (∀ v ∈ vals, '/' ∉ v) ∧ rawURL r = p ++ rem' ∧ RemOf rem' rem ∧
+        sp = (paramNames (s.url.length + 1) s.url).zip vals := by
+  unfold legacyServer at h
+  split at h
+  · simp at h
+  · split at h
+    · simp at h
+    · rename_i i' s vals' rem0 hm
+      simp only [Option.some.injEq, Prod.mk.injEq] at h
+      obtain ⟨rfl, rfl, rfl⟩ := h
+      obtain ⟨k, e1, e2, e3, e4⟩ := matchServersFrom_some _ _ _ _ _ _ _ hm
+      simp only [Nat.zero_add] at e1
+      subst e1
+      obtain ⟨vals, p, rem', f1, f2, f3, f4, f5⟩ := matchRawURL_sound _ _ _ _ _ _ e3
+      simp only [List.nil_append] at f1
+      subst f1
+      exact ⟨s, e2, e4, vals', p, rem', f2, f3, f4, f5, rfl⟩
+
+/-- … and without document-level servers the whole URL path is matched, no server is involved -/
+theorem legacy_server_none (d : Doc) (r : Req) (sp : List (Str × Str)) (rem : Str) :
+    legacyServer d r = some (none, sp, rem) ↔ d.servers = [] ∧ sp = [] ∧ rem = r.path := by
+  unfold legacyServer
+  split
+  · rename_i h; simp [h, eq_comm]
+  · rename_i h
+    split <;> simp [h]
 
 /-- no_match_is_error (legacy): no matching server, or no trie match and no path key spelled by the remaining path,
     yields path-not-found; and the router never answers with the nil-dereference outcome -/
@@ -784,5 +847,17 @@ open W in
     level servers on every path (no leak shape), and a route is returned -/
 example : leakShape (inMatchingOrder dTwo.paths) = false ∧ leakShape (inMatchingOrder dPathSrv.paths) = false ∧
     gorillaFind dTwo (reqRel "GET" "/v2/x/b/7") = .route (s "/b/{x}") get [(s "x", s "7")] (.doc 1) := by decide +kernel
+
+open W in
+/-- the hypotheses of `legacy_literal_wins` hold for the literal key GET /a/b of the family (which also holds /a/{x}), in
+    both insertion orders, with a trailing slash on the request -/
+example : (⟨get, s "/a/b"⟩ : Key) ∈ docKeys dFam ∧ '{' ∉ (⟨get, s "/a/b"⟩ : Key).str ∧
+    stripSlashes (get ++ ' ' :: s "/a/b/") = stripSlashes (⟨get, s "/a/b"⟩ : Key).str ∧
+    legacyMatchOf (docKeys dFam) get (s "/a/b/") = some (⟨get, s "/a/b"⟩, []) ∧
+    legacyMatchOf (docKeys dFam).reverse get (s "/a/b") = some (⟨get, s "/a/b"⟩, []) := by decide +kernel
+
+open W in
+/-- the hypotheses of `legacy_server_sound` hold: second of two servers matched, first one rejected -/
+example : legacyServer dTwo (reqRel "GET" "/v2/x/a") = some (some 1, [], s "/a") := by decide +kernel
 
 end KinModel.Props.C09
